@@ -1709,6 +1709,122 @@ def i_shared(ctx):
         raise AnalysisError("; ".join(refused))
 
 
+# ---------------------------------------------------------------------------
+# C08.j  a transport error ends what is still in flight for the observer
+#
+# Set to True once MessageManager._retransmit puts the exchange back *before* it hands the message to the transport
+# (or re-checks after sending): the obligation is then applied to re-arming sites as well.  On the confirmed tree the
+# re-arming site is refuted (see the note the clause emits), so it is described, not decided.
+J_DECIDE_REARM = False
+
+
+def _decide_rearm():
+    import os
+    return J_DECIDE_REARM or os.environ.get("COAPLINT_C08_DECIDE_REARM") == "1"  # the variable: for trying the flag on a repaired scratch tree
+
+
+@R.clause("C08.j", "a transport error reported for the observer stops the retransmission of its notifications: MessageManager.dispatch_error cancels the timers of the exchange table, and an exchange is entered into that table before its message is handed to the transport (which may report the error from inside send())")
+def j(ctx):
+    """'Once ended ... no further notification is ever sent for that registration', for the cause 'a transport error
+    is reported for the observer'.  TokenManager.dispatch_error ends the registration (C08.e); the confirmable
+    notification that is still being retransmitted is stopped by MessageManager.dispatch_error, which takes the
+    failing remote's entries out of the exchange table and cancels their timers.  Two sites maintain this jointly:
+
+      B (error side)  the table(s) whose entries' timers dispatch_error cancels -- found by effect: a `.cancel()` on
+                      (a component of) a value read from `self.<table>` in any spelling;
+      A (send side)   every entry that goes into such a table is made before the message it belongs to is handed to
+                      the transport object (`self.message_interface.<anything>(...)`, directly or through other
+                      methods of the class -- summaries over the message parameter, no method name enters).  A
+                      datagram transport reports a send failure synchronously (udp6: error_received runs inside
+                      sendmsg and re-enters MessageManager.dispatch_error): an exchange registered after the
+                      hand-over is not in the table when the error is dispatched, and is then armed for a
+                      registration that has already ended.
+
+    Either site may change shape; the invariant is 'what B cancels is what A has entered by the time the transport
+    can report an error for it'.  Paths are CFG paths between the two events that do not re-bind the local denoting
+    the message (a loop that sends one queued message after the other registers each before *its* hand-over).
+    Scope: entries that are *created*.  An entry the same activation took out and puts back (the re-arming in
+    _retransmit) needs the same order, but the confirmed tree sends first there: described in a note, not decided
+    (J_DECIDE_REARM)."""
+    prog = ctx.prog
+    de = prog.func(MM + "dispatch_error")
+    tables, ncancel = K.cancelled_tables(prog, de)
+    if not tables:
+        # no interpretable cancel: a violation only when there is no cancel at all in the (canonicalised) function
+        ctx.need(ncancel == 0, "MessageManager.dispatch_error cancels something, but not a value the rule can trace to a table of self")
+        ctx.ob("MessageManager.dispatch_error cancels the retransmission timers of the failing remote's exchanges", False, de, de.node, construct="MessageManager.dispatch_error",
+               detail="no .cancel() on a value taken from a table of self: retransmissions go on after the transport error")
+        return
+    for F, cs in sorted(tables.items()):
+        ctx.ob("MessageManager.dispatch_error cancels the retransmission timers of the failing remote's exchanges", True, de, cs[0], construct="cancel of entries of %s" % F)
+    cls = prog.cls("messagemanager.MessageManager")
+    X = K.Exchanges(prog, cls, sorted(tables), "message_interface")
+    nreg = ntx = 0
+    rearm_noted = False
+    for f_ in sorted(X.funcs(), key=lambda f__: f__.qn):
+        evs = X.events(f_)
+        regs = [e_ for e_ in evs if e_.kind == "reg" and e_.direct]
+        ntx += len([e_ for e_ in evs if e_.kind == "tx" and e_.direct])
+        nreg += len([e_ for e_ in regs if not e_.rearm])
+        late = {id(r.node): (r, t) for r, t in X.late_registrations(f_, include_rearm=True)}
+        for r in [e_ for e_ in evs if e_.kind == "reg"]:
+            bad = late.get(id(r.node))
+            if r.rearm and not _decide_rearm():
+                if bad is not None and not rearm_noted:
+                    rearm_noted = True
+                    ctx.note("C08.j not decided for re-arming sites: %s puts an exchange back (%s) after handing the message to the transport (%s); a transport error reported from inside that send() "
+                             "finds no exchange to cancel and the retransmissions of the ended registration continue" % (f_.short, stmt_text(r.node), stmt_text(bad[1].node)))
+                continue
+            if not r.direct and bad is None:
+                continue  # the callee's own order is decided where the callee is analysed
+            ctx.ob("an exchange is entered into the table that dispatch_error cancels before its message is handed to the transport", bad is None, f_, r.node,
+                   detail=None if bad is None else "registered on a path after %s: an error reported from inside send() is dispatched while the exchange is not yet in the table" % stmt_text(bad[1].node))
+    ctx.floor("sites that create an exchange", nreg, 1)
+    ctx.floor("hand-overs to the transport in MessageManager", ntx, 1)
+
+
+# ---------------------------------------------------------------------------
+# C08.k  every error report reaches the stoppers
+
+
+@R.clause("C08.k", "an error report for a remote is passed on towards TokenManager.dispatch_error whatever the error is: in every function that relays such a report, whether it is forwarded depends on the layer's own state (detached, shut down) only")
+def k(ctx):
+    """'The registration ends ... when a transport error is reported for the observer.'  The stoppers of a remote's
+    registrations are called by TokenManager.dispatch_error alone (C08.e), so every report has to arrive there.
+    Between a transport and that function lie *relays*: functions that receive the error as a parameter and hand
+    it, unchanged, to the next one (MessageManager.dispatch_error, _TCPPooling._dispatch_error, TcpConnection.
+    connection_lost, GenericMessageInterface._received_exception, udp6 error_received, ...).  They are found as a
+    fixpoint from TokenManager.dispatch_error (kit: error_relays), not listed.
+
+    Obligation per relay, over the path model: take any path that returns without forwarding and any path that
+    forwards; they must disagree on a condition over the object's own state (`self._tokenmanager is None`,
+    `self._active_exchanges is None`, a weak reference that is gone ...).  If they agree on all of those, then for
+    that state the outcome is decided by the error (or the remote) reported -- e.g. `exc is None`, the orderly close
+    of a TCP connection -- and reports of that kind never end the registrations of the remote: the cancellation
+    callback does not run, the observer count stays up, later notifications are rendered for a dead connection.
+    Indifferent to nesting, early returns, guard order and named conditions; logging may depend on anything."""
+    prog = ctx.prog
+    base = prog.func(TM + "dispatch_error")
+    bp = params(base)
+    ctx.need(len(bp) == 2, "TokenManager.dispatch_error signature changed")
+    relays = K.error_relays(prog, base, bp[0])
+    rl = sorted(relays.values(), key=lambda r_: r_.fi.qn)
+    ctx.floor("error relays towards TokenManager.dispatch_error", len(rl), 4)
+    ctx.note("error relays: %s" % ", ".join("%s(%s)" % (r_.fi.short, r_.err) for r_ in rl))
+    for r_ in rl:
+        f_ = r_.fi
+        cfg = cfg_of(f_)
+        inloop = [c for c in r_.calls if _enclosing_loop(cfg, c) is not None]
+        ctx.need(not inloop, "%s forwards the error from inside a loop: outside the rule's vocabulary" % f_.short)
+        res = K.value_dependent_forwarding(f_, r_)
+        if res is None:
+            ctx.ob("whether the error report is passed on depends on the layer's own state only", True, f_, r_.calls[0])
+        else:
+            s, w, pm = res
+            ctx.ob("whether the error report is passed on depends on the layer's own state only", False, f_, r_.calls[0],
+                   detail="returns without forwarding when [%s] but forwards when [%s]: reports of the first kind never reach the stoppers of the remote's registrations" % (pm.describe(s), pm.describe(w)))
+
+
 F_IF = "aiocoap/interfaces.py"
 F_RES = "aiocoap/resource.py"
 F_PROTO = "aiocoap/protocol.py"
@@ -1792,3 +1908,26 @@ R.seed("C08.i", F_MM, "        if message.mtype == CON and message.remote in sel
 R.seed("C08.i", F_MM, "        if message.mtype == CON and message.remote in self._backlogs:", "        if message.mtype == CON and self._backlogs.get(message.remote):", "a CON is transmitted at once although an exchange with the remote is open (empty entry)")
 R.seed("C08.i", F_MM, "            if self._backlogs[remote] != []:\n                next_message", "            if len(self._backlogs[remote]) > 1:\n                next_message", "the entry is deleted while it still holds the latest notification: never sent")
 R.seed("C08.i", F_MM, "                next_message, messageerror_monitor = self._backlogs[remote].pop(0)\n", "                next_message, messageerror_monitor = self._backlogs[remote][-1]\n                del self._backlogs[remote][0]\n", "the newest item is transmitted while the oldest is discarded")
+
+# C08.j / C08.k
+R.seed("C08.j", F_MM, "            self._add_exchange(message, messageerror_monitor)\n\n        self._store_response_for_duplicates(message)\n\n        self._send_via_transport(message)\n",
+       "            pass\n\n        self._store_response_for_duplicates(message)\n\n        self._send_via_transport(message)\n        if message.mtype is CON:\n            self._add_exchange(message, messageerror_monitor)\n",
+       "the exchange is created after the hand-over: a send failure reported from inside send() finds nothing to cancel, the notification of the ended registration is retransmitted")
+R.seed("C08.j", F_MM, "            self._add_exchange(message, messageerror_monitor)\n\n        self._store_response_for_duplicates(message)\n\n        self._send_via_transport(message)\n",
+       "            self.message_interface.send(message)\n            self._add_exchange(message, messageerror_monitor)\n        else:\n            self._send_via_transport(message)\n\n        self._store_response_for_duplicates(message)\n",
+       "confirmable messages go to the transport object directly, before their exchange exists")
+R.seed("C08.j", F_MM, "            (messageerror_monitor, cancellable_timeout) = self._active_exchanges.pop(k)\n            cancellable_timeout.cancel()\n", "            (messageerror_monitor, cancellable_timeout) = self._active_exchanges.pop(k)\n",
+       "a transport error forgets the exchanges of the remote but leaves their retransmission timers armed")
+if J_DECIDE_REARM:
+    # the repaired order of _retransmit (findings/F13_retransmit_rearm_before_send.patch); the seed restores the old one
+    R.seed("C08.j", F_MM, "            self._active_exchanges[key] = (messageerror_monitor, next_retransmission)\n            self._send_via_transport(message)\n",
+           "            self._send_via_transport(message)\n            self._active_exchanges[key] = (messageerror_monitor, next_retransmission)\n",
+           "F13: the exchange is put back after the retransmission was handed to the transport")
+R.seed("C08.k", "aiocoap/transports/tcp.py", "        self._tokenmanager.dispatch_error(exc, connection)\n", "        if exc is not None:\n            self._tokenmanager.dispatch_error(exc, connection)\n",
+       "an orderly close of a TCP connection (connection_lost(None)) no longer ends the registrations of that connection")
+R.seed("C08.k", "aiocoap/transports/tcp.py", "        self._ctx._dispatch_error(self, exc)\n", "        if isinstance(exc, OSError):\n            self._ctx._dispatch_error(self, exc)\n",
+       "only socket errors are reported by the connection; an orderly close is dropped one relay earlier")
+R.seed("C08.k", F_MM, "        self.token_manager.dispatch_error(error, remote)\n\n        keys_for_removal = []", "        if not isinstance(error, ConnectionRefusedError):\n            self.token_manager.dispatch_error(error, remote)\n\n        keys_for_removal = []",
+       "one kind of transport error is kept from the token manager: the observer's registrations survive it")
+R.seed("C08.k", "aiocoap/transports/generic_udp.py", "        self._mman.dispatch_error(exception, address)\n", "        if exception.errno:\n            self._mman.dispatch_error(exception, address)\n",
+       "errors without errno are dropped by the datagram pool's relay")
